@@ -50,6 +50,9 @@ def cases(tier, seed):
                                 alt = [(b2, (B * W) // b2) for b2 in range(1, B * W + 1) if (B * W) % b2 == 0 and 2 <= (B * W) // b2 <= maxw]
                                 c["warm"] = [list(rnd.choice(alt))] + ([[B, W]] if rnd.random() < 0.5 else [])
                             out.append(c)
+    # evaluation-scale batches: beam rows beyond 2**15 (index arithmetic over batch x beam)
+    for name, n, B, W in (("tsp", 6, 6600, 6), ("cvrp", 5, 8300, 5)) if q else (("tsp", 6, 6600, 6), ("cvrp", 5, 8300, 5), ("tsp", 20, 1800, 20)):
+        out.append(dict(env=name, n=n, B=B, W=W, select_best=bool(B % 200), s=rnd.randrange(10**6), wseed=0, big=True))
     # the non-autoregressive (heat-map) policy machinery under beam search
     for name in ("tsp", "cvrp", "op"):
         for n in ((6, 9) if q else (5, 6, 8, 10)):
